@@ -15,8 +15,8 @@ import (
 //   r<i>  random small programs on a 6-path pool under a random schedule (create races through the
 //         mkdir/write gaps, listing while adding/removing, copy while writing).
 // followed by nsa scenarios of the shared-ancestor family sa_<i> and nsib of the sibling family sib_<i>
-// (gen_families.go; a negative count = the whole enumeration).
-func genMain(out *bufio.Writer, n, nsa, nsib, n4assign, n4perms int) {
+// (gen_families.go; a negative count = the whole enumeration) and nwg of the write-gap family wg_<i> (gen_wg.go).
+func genMain(out *bufio.Writer, n, nsa, nsib, n4assign, n4perms, nwg int) {
 	r := hx.NewRand(hx.SeedFromEnv() ^ 0x9E09)
 	val := func() string { return fmt.Sprintf("%02x%02x", r.Intn(256), r.Intn(256)) }
 	// --- holder family (exhaustive over the three pools)
@@ -95,4 +95,6 @@ func genMain(out *bufio.Writer, n, nsa, nsib, n4assign, n4perms int) {
 	emitFamily(out, rsa, sharedAncestorFamily(rsa, n4assign, n4perms), nsa)
 	rsib := hx.NewRand(hx.SeedFromEnv() ^ 0x51B9)
 	emitFamily(out, rsib, siblingFamily(), nsib)
+	rwg := hx.NewRand(hx.SeedFromEnv() ^ 0x3A69)
+	emitFamily(out, rwg, writeGapFamily(), nwg)
 }
